@@ -734,7 +734,7 @@ func (mc *vfC04Machine) checkFindMAC8Colon(t *rapid.T, id vfC04ID) {
 		}
 	}
 	p, found := sys.s.Find(text)
-	sys.checkFound(t, fmt.Sprintf("Find(%q)", text), p, found, ok)
+	sys.checkFound(t, vfC04Lazy(func() string { return fmt.Sprintf("Find(%q)", text) }), p, found, ok, false)
 	vfC04.Class("find:mac8_colon_ambiguous")
 }
 
